@@ -9,9 +9,13 @@
    [locate outputs p]; (I3) an inscription on the sat at position q of the input stream moves
    to [locate outputs q]; (I4) a premine goes to the non-OP_RETURN output the runestone points
    to.  The theorems below are the planner's half: what it reports equals what (I1)-(I4) yield
-   on the transaction shape it builds. *)
+   on the transaction shape it builds.
+   (I1)-(I3) are proved for the inscription indexer model of C03-C07 (Index/Inscr.v) at the end of this file
+   (C21_indexer_I1/I2/I3, C21_indexer_located) and composed with the planner's half in C21_reveal_located;
+   statements in Proofs/Inscr_c21.v.  (I4), the rune premise, stays assumed here (C09's subject). *)
 From OrdV Require Import Base.Prelude Generated Wallet.Batch Proofs.Batch_proofs
   Wallet.Builder Wallet.BuilderSpec Proofs.Builder_proofs.
+From OrdV Require Index.Inscr Proofs.Inscr_c21.
 
 (* For every batch accepted by the planner (BatchOK: at least one inscription, positive postage,
    in satpoints mode a positive-valued satpoint per entry - what File::load and the dust check
@@ -75,9 +79,38 @@ Example C21_nonvacuous :
   rune_vout b = Some 3.
 Proof. cbv zeta. split; [split; [cbn; lia|reflexivity]|]. vm_compute. repeat split; reflexivity. Qed.
 
+(* ---- the indexer's half, on the inscription indexer model (Index/Inscr.v), one non-coinbase transaction:
+   floating_of = the flotsam of the transaction, assign = its distribution over the outputs; statements spelled
+   out in Proofs/Inscr_c21.v (I1_statement, I2_statement, I3_statement, located_statement, reveal_statement).
+   (I1) the new inscriptions get the ids (txid,0), (txid,1), ... one per envelope, in envelope order
+        (envelopes sorted by input, as the parser delivers them);
+   (I2) a new inscription floats on its pointer p when p < total output value (else on the first offset of the
+        input its envelope is in);
+   (I3) an inscription at offset off of input i floats at (value of inputs 0..i-1) + off;
+   located: a flotsam at offset q < total output value is handed to update_inscription_location with the
+        satpoint (txid, k):o where locate (output values) q = Some (k, o)  [same locate as above]. *)
+Theorem C21_indexer_I1 : forall cfg, Inscr_c21.I1_statement cfg.
+Proof. exact Inscr_c21.indexer_I1. Qed.
+Theorem C21_indexer_I2 : forall cfg, Inscr_c21.I2_statement cfg.
+Proof. exact Inscr_c21.indexer_I2. Qed.
+Theorem C21_indexer_I3 : forall cfg, Inscr_c21.I3_statement cfg.
+Proof. exact Inscr_c21.indexer_I3. Qed.
+Theorem C21_indexer_located : Inscr_c21.located_statement.
+Proof. exact Inscr_c21.indexer_located. Qed.
+
+(* planner + indexer: in a transaction whose output values are reveal_outputs b of an accepted batch, the flotsam
+   whose offset is the i-th pointer is handed over with exactly (vout, offset) = the i-th reported location. *)
+Theorem C21_reveal_located : Inscr_c21.reveal_statement.
+Proof. exact Inscr_c21.reveal_located. Qed.
+
 Print Assumptions C21_reported_is_located.
 Print Assumptions C21_parents_return.
 Print Assumptions C21_parents_return_fifo.
 Print Assumptions C21_commit_input_position.
 Print Assumptions C21_rune_output.
 Print Assumptions C21_commit_spends_only_cardinal.
+Print Assumptions C21_indexer_I1.
+Print Assumptions C21_indexer_I2.
+Print Assumptions C21_indexer_I3.
+Print Assumptions C21_indexer_located.
+Print Assumptions C21_reveal_located.
